@@ -28,3 +28,9 @@ func Keys(_ string, m map[string]struct{}) []string {
 
 	return out
 }
+
+// On reports whether the hooks are compiled in.
+const On = false
+
+// Pick lets the deterministic simulator choose among n alternatives; -1 means "no preference".
+func Pick(string, int) int { return -1 }
